@@ -130,11 +130,28 @@ class _Canon(ast.NodeTransformer):
 
     def visit_BinOp(self, n):
         self.generic_visit(n)
+        # x + 0  ->  x   (an offset column of a constant table)
+        if isinstance(n.op, ast.Add):
+            for a_, b_ in ((n.left, n.right), (n.right, n.left)):
+                if isinstance(b_, ast.Constant) and type(b_.value) is int and b_.value == 0 and not isinstance(a_, ast.Constant):
+                    self.stats['canon_plus_zero'] = self.stats.get('canon_plus_zero', 0) + 1
+                    return a_
         n = self._fold_percent(n)
         if isinstance(n.op, (ast.Add, ast.Mult)) and isinstance(n.left, ast.Constant) and type(n.left.value) is int \
                 and not isinstance(n.right, ast.Constant):
             n.left, n.right = n.right, n.left
             self.stats['canon_commute'] = self.stats.get('canon_commute', 0) + 1
+        return n
+
+    def visit_Subscript(self, n):
+        self.generic_visit(n)
+        # (a, b, c)[1]  ->  b     (a row of a constant table after the table lookup was expanded)
+        if isinstance(n.ctx, ast.Load) and isinstance(n.value, (ast.Tuple, ast.List)) and isinstance(n.slice, ast.Constant) \
+                and isinstance(n.slice.value, int) and not isinstance(n.slice.value, bool) \
+                and -len(n.value.elts) <= n.slice.value < len(n.value.elts) and all(is_pure(e) for e in n.value.elts) \
+                and not any(isinstance(e, ast.Starred) for e in n.value.elts):
+            self.stats['canon_const_index'] = self.stats.get('canon_const_index', 0) + 1
+            return n.value.elts[n.slice.value]
         return n
 
     def visit_IfExp(self, n):
@@ -1258,8 +1275,8 @@ def resolve_name_dispatch(tree, cls, fn, stats):
 
     is turned into the if-chain over the keys of T with the attribute spelled out (`obj._parse_isa(...)`), so that the
     callee is visible to the inliner and to every rule that follows calls.  Runs before inlining."""
-    tabs = {k: v for k, v in _table_defs(tree, cls, fn).items() if all(isinstance(x, ast.Constant) and isinstance(x.value, str) for x in v.values)}
-    if not tabs or not any(isinstance(x, ast.Call) and isinstance(x.func, ast.Name) and x.func.id == 'getattr' for x in ast.walk(fn)):
+    tabs = _table_defs(tree, cls, fn)
+    if not tabs or not any(isinstance(x, ast.Call) and isinstance(x.func, ast.Attribute) and x.func.attr == 'get' for x in ast.walk(fn)):
         return
     did = False
     for owner in ast.walk(fn):
@@ -1446,6 +1463,57 @@ def thread_flags(fn, stats):
                 break
     if rounds > 1:
         ast.fix_missing_locations(fn)
+
+
+def forward_temps(fn, stats):
+    """the result variable of an inlined helper that is handed to a named local exactly once,
+
+        __ret__i3 = E ... ; args = __ret__i3
+
+    takes that local's name (the name the source gave the value), instead of the local taking the temporary's."""
+    import re as _re
+    changed = True
+    while changed:
+        changed = False
+        po = {}
+
+        def w(n):
+            po[id(n)] = len(po)
+            for c in ast.iter_child_nodes(n):
+                w(c)
+        w(fn)
+        for owner in ast.walk(fn):
+            for field in ('body', 'orelse', 'finalbody'):
+                blk = getattr(owner, field, None)
+                if not isinstance(blk, list) or not blk or not isinstance(blk[0], ast.stmt):
+                    continue
+                for j, c in enumerate(blk):
+                    if not (isinstance(c, ast.Assign) and len(c.targets) == 1 and isinstance(c.targets[0], ast.Name) and isinstance(c.value, ast.Name)
+                            and _re.match(r'^__ret__i[0-9]+$', c.value.id)):
+                        continue
+                    v, a = c.targets[0].id, c.value.id
+                    loads = [x for x in ast.walk(fn) if isinstance(x, ast.Name) and x.id == a and isinstance(x.ctx, ast.Load)]
+                    stores = [x for x in ast.walk(fn) if isinstance(x, ast.Name) and x.id == a and isinstance(x.ctx, ast.Store)]
+                    if len(loads) != 1 or not stores:
+                        continue
+                    lo = min(po[id(x)] for x in stores)
+                    hi = po[id(c)]
+                    if any(isinstance(x, ast.Name) and x.id == v and lo < po[id(x)] < hi for x in ast.walk(fn)):
+                        continue
+                    if any(po[id(x)] > hi for x in stores):
+                        continue
+                    for x in stores:
+                        x.id = v
+                    blk.remove(c)
+                    if not blk:
+                        blk.append(ast.copy_location(ast.Pass(), c))
+                    stats['temps_forwarded'] = stats.get('temps_forwarded', 0) + 1
+                    changed = True
+                    break
+                if changed:
+                    break
+            if changed:
+                break
 
 
 def merge_accumulators(fn, stats):
@@ -1754,16 +1822,26 @@ def normalize_module(modname, tree, stats, pkg_dir=None):
     for q, f, _m in funcs:
         ms = by_cls.get(q.split('.')[0]) if '.' in q else None
         cls = classes.get(q.split('.')[0]) if '.' in q else None
-        expand_tables(tree, cls, f, stats)
-        unguard_continue(f, stats)
-        unroll_constant_loops(f, stats)
-        _Canon(stats).visit(f)
-        try:
-            copy_propagate(f, ms, stats)
-        except RecursionError:
-            pass
-        thread_flags(f, stats)
-        merge_accumulators(f, stats)
+        # the passes enable one another (a propagated literal makes a loop unrollable, an unrolled loop leaves copies to
+        # propagate): repeat until the function text is stable, at most three rounds
+        prev = None
+        for _round in range(3):
+            resolve_name_dispatch(tree, cls, f, stats)
+            expand_tables(tree, cls, f, stats)
+            unguard_continue(f, stats)
+            unroll_constant_loops(f, stats)
+            _Canon(stats).visit(f)
+            forward_temps(f, stats)
+            try:
+                copy_propagate(f, ms, stats)
+            except RecursionError:
+                pass
+            thread_flags(f, stats)
+            merge_accumulators(f, stats)
+            cur = ast.dump(f)
+            if cur == prev:
+                break
+            prev = cur
     _Canon(stats).visit(tree)
     ast.fix_missing_locations(tree)
     return tree
